@@ -30,7 +30,9 @@ def handle (op : String) (args : List String) : Option String :=
     let r ← chain a (if steps == "-" then [] else steps.splitOn "|")
     some (showRes showArr r)
   | "create", [el, sh, nd] => do
-    let el ← parseIntList? el; let sh ← parseNatList? sh; let nd ← parseOpt? parseNat? nd
+    -- elements either as a list `0,1,2` or as the elements of a tag array `i2,3+5`
+    let el ← (if el.startsWith "i" then (parseArr? el).map (·.elems) else parseIntList? el)
+    let sh ← parseNatList? sh; let nd ← parseOpt? parseNat? nd
     some (showRes showArr (Arr.create el sh nd))
   | _, _ => none
 
